@@ -23,7 +23,7 @@ FLOORS = {"history": 100, "history:refused:foreign-arch-first-child": 30, "histo
           "history:dashed-top": 100, "history:roundtrip": 200}
 
 IDS = ["Server", "Client", "optional", "HA", "Tools", "A", "B", "Z"]
-ARCHES = ["x86_64", "i386", "ppc64le", "aarch64"]
+ARCHES = ["x86_64", "i386", "ppc64le", "aarch64", "ppc64", "s390x", "s390"]      # some names are contained in others
 
 _arches = st.lists(st.sampled_from(ARCHES), min_size=1, max_size=4, unique=True)
 _sel = st.lists(st.integers(0, 7), min_size=1, max_size=3)
